@@ -646,7 +646,7 @@ impl Property for C12 {
         }
     }
     fn required_labels(&self, _tier: Tier) -> Vec<&'static str> {
-        vec!["nontrivial", "ops:len>30", "pair:operand>30", "pair:equal-length", "pair:unbalanced-not-nested", "pair:disjoint", "pair:nested", "pair:equal", "pair:empty-operand", "terms:diamond", "group>255-ids", "group>65535-ids", "pair:few-ids-vs-65+-partly-contained", "terms:pairs-across-two-ontologies", "terms:pairs-across-two-ontologies-with-reversed-hierarchy", "pair:run-with-one-hole-vs-the-hole"]
+        vec!["nontrivial", "ops:len>30", "pair:operand>30", "pair:equal-length", "pair:unbalanced-not-nested", "pair:disjoint", "pair:nested", "pair:equal", "pair:empty-operand", "terms:diamond", "group>255-ids", "group>65535-ids", "pair:few-ids-vs-65+-partly-contained", "terms:pairs-across-two-ontologies", "terms:pairs-across-two-ontologies-with-reversed-hierarchy", "pair:run-with-one-hole-vs-the-hole", "terms:obsolete-terms-in-the-hierarchy"]
     }
     fn run_generated(&self, tier: Tier, seed: u64, n: u64, stats: &mut Stats) -> Option<(Value, Failure)> {
         run_typed(strategy(tier), seed, n, stats, check)
